@@ -102,6 +102,11 @@ def make_state(doc, state):
         else:
             other = [s for s in secs if s is not p.parent]
             p.new_id((other[0] if other else secs[0]).id)
+    elif state == "duplicate-ids-document-spelled-differently":
+        # the Document is given the id of one of its Properties / Sections in another accepted spelling
+        objs = [p for s in secs for p in s.properties] + secs
+        oid = objs[len(secs) % len(objs)].id
+        doc.new_id([oid.upper(), "{%s}" % oid, "urn:uuid:" + oid, oid.replace("-", "")][(len(secs) + 1) % 4])
     elif state == "duplicate-ids-spelled-differently":
         # the id of another object handed to new_id in another accepted spelling (upper case, braces, urn, no hyphens)
         props = [p for s in secs for p in s.properties]
@@ -133,7 +138,7 @@ def make_state(doc, state):
 
 STATES = ["valid", "warnings-only", "untyped-section", "duplicate-ids", "duplicate-ids-cross-branch-prop",
           "duplicate-ids-cross-branch-sec", "duplicate-ids-prop-equals-section", "duplicate-ids-prop-equals-document",
-          "duplicate-ids-spelled-differently", "duplicate-section", "duplicate-property", "many-warnings-then-error", "many-errors"]
+          "duplicate-ids-spelled-differently", "duplicate-ids-document-spelled-differently", "duplicate-section", "duplicate-property", "many-warnings-then-error", "many-errors"]
 
 
 def faults_for(fmt):
